@@ -2,7 +2,7 @@
 C18 — parallel correlation equals Pearson correlation.
 Correspondence: the real `pyndl.correlation.correlation` (public call; public call with the real
 OpenMP kernel forwarded with n_jobs 1..32 / chunksize 1..50; direct kernel call) on the same logical
-matrix in C, Fortran, strided-slice and negative-stride layouts, against the Lean model
+matrix in C, Fortran, strided-slice, negative-stride and one-unit-stride-only (row slice of a taller Fortran array, column slice of a wider C array, transposed) layouts, against the Lean model
 `Pyndl.Corr.correlation` evaluated over exact rationals (PyndlProps/C18.lean proves the model's cell
 equal to Pearson's r over the reals, its rejection rule equal to "some column is constant", and its
 result independent of the prange schedule).  Per cell, in integer/Fraction arithmetic:
@@ -93,14 +93,15 @@ def float_matrix(r, n, m, kind):
 
 
 def rand_config(r):
-    return {'layout': r.choice('CFSR'), 'layout_act': r.choice('CFSR'),
+    return {'layout': r.choice('CFSRPQT'), 'layout_act': r.choice('CFSRPQT'),
             'via': r.choice(['shim', 'shim', 'kernel']),
             'n_jobs': r.choice([1, 2, 3, 4, 7, 8, 16, 31, 32, r.randint(1, 32)]),
             'chunksize': r.choice([1, 2, 3, 10, 49, 50, r.randint(1, 50)])}
 
 
 def configs(r, k):
-    base = [{'layout': 'C', 'via': 'public'}, {'layout': 'F', 'via': 'public'}, {'layout': 'S', 'via': 'public'}]
+    base = [{'layout': 'C', 'via': 'public'}, {'layout': 'F', 'via': 'public'}, {'layout': 'S', 'via': 'public'},
+            {'layout': r.choice('PQT'), 'layout_act': r.choice('PQT'), 'via': 'public'}]
     return base + [rand_config(r) for _ in range(k)]
 
 
@@ -439,9 +440,15 @@ def python_snippet(c):
     ]
     lay = {'C': 'np.ascontiguousarray(%s)', 'F': 'np.asfortranarray(%s)',
            'S': 'np.repeat(np.repeat(%s, 2, axis=0), 3, axis=1)[::2, ::3]',
-           'R': 'np.ascontiguousarray(%s[::-1, ::-1])[::-1, ::-1]'}
-    lines.append('sem = ' + lay[cfg.get('layout', 'C')] % 'sem')
-    lines.append('act = ' + lay[cfg.get('layout_act', cfg.get('layout', 'C'))] % 'act')
+           'R': 'np.ascontiguousarray(%s[::-1, ::-1])[::-1, ::-1]',
+           'P': 'np.asfortranarray(np.vstack([%s, np.full((5, 1), 7.25) * np.ones((1, %s.shape[1]))]))[:-5]',
+           'Q': 'np.ascontiguousarray(np.hstack([%s, np.full((%s.shape[0], 3), 7.25)]))[:, :-3]',
+           'T': 'np.repeat(np.ascontiguousarray(%s.T), 2, axis=0)[::2].T'}
+    def expr(kind, name):
+        t = lay[kind]
+        return t % ((name,) * t.count('%s'))
+    lines.append('sem = ' + expr(cfg.get('layout', 'C'), 'sem'))
+    lines.append('act = ' + expr(cfg.get('layout_act', cfg.get('layout', 'C')), 'act'))
     lines.append('print(correlation.correlation(sem, act, allow_nan=%r))' % bool(c['allow_nan']))
     lines.append('print(correlation._reference_correlation(sem, act))')
     if cfg.get('via', 'public') != 'public':
